@@ -399,8 +399,9 @@ int main(int argc, char **argv) {
   // one representative per translation orbit
   const std::vector< int > full = {0, 1, 2, 3, 4, 5};
   const std::vector< int > extended = {0, 1, 2, 3, 4, 5, 6, 7}; // 4-cell grid: plus Mach ~1.1-1.6 towards +-x
-  // thorough tier: 2x2x2 without the -x state (mirror images of +x are on the other grids), 4x2x1 all six
-  const std::vector< int > big[2] = {{0, 1, 2, 3, 5}, full};
+  // thorough tier: five of the six states per 8-cell grid: 2x2x2 without the -x state, 4x2x1 without the
+  // hot-thin state (every state is on at least two grids; the 4-cell grid has all of them)
+  const std::vector< int > big[2] = {{0, 1, 2, 3, 5}, {0, 1, 3, 4, 5}};
   // quick tier: rest / supersonic+x / near-vacuum on 2x2x2, dense-cold / supersonic+x / near-vacuum on 4x2x1
   const std::vector< int > sub[2] = {{0, 3, 5}, {1, 3, 5}};
   std::vector< std::string > cells_of_grid[3];
